@@ -241,6 +241,8 @@ class Interp:
                 self.requested_reasons.append(reason)
 
     def do_local_send(self, kind):
+        if getattr(self, "open_frame", False):
+            return      # the application has a streaming frame open: further sends would be outside the documented call order (not generated)
         state0 = RANK[self.proto.state]
         wrote0 = len(self.ep.t.written)
         p = self.proto
@@ -275,6 +277,15 @@ class Interp:
                 def go():
                     p.sendPreparedMessage(self.side.factory.prepareMessage(b"prep", True))
                 self.d.call(go)
+            elif kind == "stream-open":
+                # streaming API across event-loop turns: a frame of 4 octets is announced, 2 are sent - the frame stays open while other things happen
+                def go():
+                    p.beginMessage(True)
+                    p.beginMessageFrame(4)
+                    p.sendMessageFrameData(b"ab")
+                self.d.call(go)
+                if state0 == 2 and not getattr(self, "open_frame", False):
+                    self.open_frame = True
             raised = None
         except Exception as e:
             raised = e
@@ -405,6 +416,15 @@ class Interp:
         self.rank = max(self.rank, r)
         # written frames
         frames, rest = ref6455.parse_frames(self.out)
+        if getattr(self, "open_frame", False):
+            # a streaming-API frame was left open: whatever is written next lands inside that frame, so the octet stream as a whole cannot be
+            # judged any more (a close while a frame is open has no well-formed encoding - don't-care).  What still counts is whether the endpoint
+            # wrote a close frame at all: each write is looked at on its own
+            frames, rest = [], b""
+            for _t, chunk in self.ep.t.written:
+                fr, rs = ref6455.parse_frames(chunk)
+                if len(fr) == 1 and not rs and fr[0].opcode == 8:
+                    frames.append(fr[0])
         closes = [i for i, f in enumerate(frames) if f.opcode == 8]
         if len(closes) > 1:
             self.fail("more-than-one-close-frame", "%d close frames written" % len(closes))
@@ -584,7 +604,7 @@ def make_machine_factory(col):
             def local_close(self, code, reason):
                 self.ap("local_close", code, reason)
 
-            @rule(kind=st.sampled_from(["message", "ping", "pong", "frames", "stream", "prepared", "message-sync", "message-sync-held", "message-sync-held"]))
+            @rule(kind=st.sampled_from(["message", "ping", "pong", "frames", "stream", "prepared", "message-sync", "message-sync-held", "message-sync-held", "stream-open"]))
             def local_send(self, kind):
                 self.ap("local_send", kind)
 
